@@ -505,13 +505,13 @@ def _sum_poly(ps):
     return t
 
 
-@obligation("C03", "aggregate_is_group_sum", timeout=900, bound="lists of 1..3 (quick) / 1..5 (thorough) arbitrary 96-byte strings (symbolic content), every permutation; empty list and wrongly sized entries")
+@obligation("C03", "aggregate_is_group_sum", timeout=900, bound="lists of 1..4 (quick) / 1..8 (thorough) arbitrary 96-byte strings (symbolic content), every permutation; empty list and wrongly sized entries")
 def c03_aggregate(rep, tier):
     import itertools
     cs = cs_mod()
     rp = {"kind": "bls_aggregate", "args": {}}
     rep.stub("ideal model (symx.blsmodel)")
-    nmax = 3 if tier == "quick" else 5
+    nmax = 4 if tier == "quick" else 8
     for suite in SUITES:
         S = getattr(cs, suite)
         rep.encoded(S.Aggregate)
@@ -649,19 +649,19 @@ for _s in SUITES:
             cs = cs_mod()
             rep.encoded(getattr(cs, s).AggregateVerify, cs.BaseG2Ciphersuite._CoreAggregateVerify)
             rep.stub("ideal model (symx.blsmodel)")
-            for n in ((1, 2) if tier == "quick" else (1, 2, 3)):
+            for n in ((1, 2, 3, 4) if tier == "quick" else (1, 2, 3, 4, 5, 6, 8)):
                 _agg_verify(rep, s, n)
         return f
     obligation("C03", "aggregate_verify_%s" % _s, timeout=1500,
-               bound="1..2 (quick) / 1..3 (thorough) signers with arbitrary valid keys sk_i in [1, r-1] (repeats allowed), arbitrary messages, EVERY 96-byte candidate aggregate")(_mk3(_s))
+               bound="1..4 (quick) / 1..6 and 8 (thorough) signers with arbitrary valid keys sk_i in [1, r-1] (repeats allowed), arbitrary messages, EVERY 96-byte candidate aggregate")(_mk3(_s))
 
 
-@obligation("C03", "fast_aggregate_verify", timeout=1500, bound="1..2 (quick) / 1..3 (thorough) signers, one shared message, every 96-byte candidate")
+@obligation("C03", "fast_aggregate_verify", timeout=1500, bound="1..4 (quick) / 1..6 and 8 (thorough) signers, one shared message, every 96-byte candidate")
 def c03_fast(rep, tier):
     cs = cs_mod()
     rep.encoded(cs.G2ProofOfPossession.FastAggregateVerify, cs.G2ProofOfPossession._AggregatePKs)
     rep.stub("ideal model (symx.blsmodel)")
-    for n in ((1, 2) if tier == "quick" else (1, 2, 3)):
+    for n in ((1, 2, 3, 4) if tier == "quick" else (1, 2, 3, 4, 5, 6, 8)):
         _agg_verify(rep, "G2ProofOfPossession", n, fast=True)
 
 
@@ -776,19 +776,20 @@ for _s in SUITES:
             _c04_run(rep, "v", lambda cs, pks, msgs, sig: getattr(cs, s).Verify(pks[0], msgs[0], sig), 1, True, "%s.Verify" % s)
             _c04_run(rep, "av1", lambda cs, pks, msgs, sig: getattr(cs, s).AggregateVerify(pks, msgs, sig), 1, True, "%s.AggregateVerify(1 key)" % s)
             _c04_run(rep, "av2", lambda cs, pks, msgs, sig: getattr(cs, s).AggregateVerify(pks, msgs, sig), 2, True, "%s.AggregateVerify(2 keys)" % s)
+            _c04_run(rep, "av3", lambda cs, pks, msgs, sig: getattr(cs, s).AggregateVerify(pks, msgs, sig), 3, True, "%s.AggregateVerify(3 keys)" % s)
             if tier == "thorough":
-                _c04_run(rep, "av3", lambda cs, pks, msgs, sig: getattr(cs, s).AggregateVerify(pks, msgs, sig), 3, True, "%s.AggregateVerify(3 keys)" % s)
+                _c04_run(rep, "av4", lambda cs, pks, msgs, sig: getattr(cs, s).AggregateVerify(pks, msgs, sig), 4, True, "%s.AggregateVerify(4 keys)" % s)
         return f
     obligation("C04", "verifiers_total_%s" % _s, timeout=1200,
-               bound="every byte string of length 0..200 for each key and the signature (lengths symbolic, contents abstract), 1..2 keys (quick) / 1..3 (thorough); every message")(_mk4(_s))
+               bound="every byte string of length 0..200 for each key and the signature (lengths symbolic, contents abstract), 1..3 keys (quick) / 1..4 (thorough); every message")(_mk4(_s))
 
 
-@obligation("C04", "pop_verifiers_total", timeout=1200, bound="PopVerify and FastAggregateVerify with 1..2 (quick) / 1..3 (thorough) arbitrary key strings of length 0..200, arbitrary signature string")
+@obligation("C04", "pop_verifiers_total", timeout=1200, bound="PopVerify and FastAggregateVerify with 1..3 (quick) / 1..4 (thorough) arbitrary key strings of length 0..200, arbitrary signature string")
 def c04_pop(rep, tier):
     cs = cs_mod()
     S = cs.G2ProofOfPossession
     rep.encoded(S.PopVerify, S.FastAggregateVerify, S._AggregatePKs, S._is_valid_pubkey)
     rep.stub("ideal model (symx.blsmodel)")
     _c04_run(rep, "pv", lambda cs, pks, msgs, sig: cs.G2ProofOfPossession.PopVerify(pks[0], sig), 1, True, "PopVerify")
-    for n in ((1, 2) if tier == "quick" else (1, 2, 3)):
+    for n in ((1, 2, 3) if tier == "quick" else (1, 2, 3, 4)):
         _c04_run(rep, "fav", lambda cs, pks, msgs, sig: cs.G2ProofOfPossession.FastAggregateVerify(pks, msgs[0], sig), n, True, "FastAggregateVerify(%d keys)" % n)
